@@ -880,7 +880,11 @@ class EQLTranslator:
 
         # Perform the join using the relationship attribute so SQLAlchemy
         # determines the ON clause, while we control aliasing of the right side
-        self.sql_query = self.sql_query.join(aliased_target, relationship_attr)
+        # Inside a disjunction the path belongs to one side only: an object without the related object can still satisfy
+        # the other side, so its row must survive the JOIN (an inner join would drop it).
+        self.sql_query = self.sql_query.join(
+            aliased_target, relationship_attr, isouter=self.disjunction_depth > 0
+        )
 
         # Record the logical path as joined to avoid duplicates. The table itself is not in the statement: what was
         # joined is an alias that stands for this path, a variable of the same class still needs a JOIN of its own.
